@@ -22,11 +22,12 @@ MID = [-1, 0, 2]
 def _shape_runs(prop, tier):
     """the matrix shared by C27 and C28 (C28 = same runs with the in-flight oracle).
     '*' / -2 are wildcards that the harness enumerates exhaustively inside one run (mc::choose)."""
-    runs, seen = [], set()
+    runs, heavy, san, seen = [], [], [], set()  # order: cheap plain runs, two workers at bound >= 1, sanitizer legs
     q = tier == 'quick'
 
-    def add(*a, **k):
-        _run(runs, seen, prop, *a, **k)
+    def add(n, st, items, bound, **k):
+        dest = san if k.get('mode', 'plain') != 'plain' else (heavy if (n >= 2 and bound >= 1) else runs)
+        _run(dest, seen, prop, n, st, items, bound, **k)
     # ---- one stage (pool 0 explicitly per limit: a violation ends a run, wildcards would hide the other limits)
     for st in ('p', '2', 'u'):
         add(0, st, 2, 0)
@@ -41,11 +42,11 @@ def _shape_runs(prop, tier):
         for g in LIM:
             for s in LIM:
                 add(1, g + s, 3, 2, budget=120)
-    two_n2 = ['pp', 'u2'] if q else ['pp', '22', 'uu', 'up', '2p', 'p2', 'u2']
+    two_n2 = ['pp'] if q else ['pp', '22', 'uu', 'up', '2p', 'p2', 'u2']
     if prop == 28 and q:
-        two_n2 = ['up', '22']
+        two_n2 = ['2u']  # reaches two concurrent sink invocations and two generator instances
     for st in two_n2:
-        add(2, st, 2 if (q and st == 'pp') else 3, 1, budget=200)
+        add(2, st, 2 if q else 3, 1, budget=200)
     # ---- three stages: every limit triple x every transform kind
     add(0, '***', 3, 0, f1=-2)
     add(2, '***', 3, 0, f1=-2, budget=150)
@@ -71,11 +72,12 @@ def _shape_runs(prop, tier):
     if not q:
         add(2, '****', 3, 0, f1=-1, f2=2, budget=200)
     # ---- sanitizer legs on small shapes
-    add(1, 'p2p', 2, 1, mode='tsan', f1=2, budget=120)
+    add(1, 'p2p', 2, 1 if not q else 0, mode='tsan', f1=2, budget=120)
+    add(1, 'pp', 2, 1, mode='tsan', budget=90)
     add(2, 'u2', 2, 0, mode='tsan')
-    add(1, '2u', 2, 1, mode='asan', budget=120)
+    add(1, '2u', 2, 1, mode='asan', budget=90)
     add(2, 'p2p', 3, 0, mode='asan', f1=0)
-    return runs
+    return runs + heavy + san
 
 
 def c27_runs(tier):
@@ -93,7 +95,7 @@ _NOTE = ('the harness calls the public dispenso::pipeline(); stage functors cont
          'a per-execution hook puts glibc\'s cached thread stacks into a canonical order because moodycamel\'s implicit-producer hash depends '
          'on thread_local addresses (see harness/c27_pipeline.notes.md)')
 
-reg('C27', level='model_checking', runs=c27_runs, quick_budget_s=240, thorough_budget_s=1800,
+reg('C27', level='model_checking', runs=c27_runs, quick_budget_s=300, thorough_budget_s=1800,
     technique='stateless model checking of the real pipeline()/LimitGatedScheduler/ConcurrentTaskSet/ThreadPool code with tagged, '
               'heap-owning items: all interleavings up to a deviation bound, per-(item,stage) exactly-once and provenance oracle',
     level_text='pipelines of 1-5 stages over stage limits {plain function, stage(f,2), stage(f,kStageNoLimit)} (all 9 limit pairs for 2 stages; 6 '
@@ -107,7 +109,7 @@ reg('C27', level='model_checking', runs=c27_runs, quick_budget_s=240, thorough_b
     level_note=_NOTE, design_ref='DESIGN.md section 4, C27', assumptions=MC_ASSUME, rule=_RULE,
     guards=[need_cover('filtered', 'stage_ran_inline_nested'), need_outcomes(20)])
 
-reg('C28', level='model_checking', runs=c28_runs, quick_budget_s=240, thorough_budget_s=1800,
+reg('C28', level='model_checking', runs=c28_runs, quick_budget_s=300, thorough_budget_s=1800,
     technique='stateless model checking of the real pipeline() code, every stage functor bracketing a scheduling point with a per-stage '
               'in-flight counter',
     level_text='the C27 matrix (1-5 stages, limits {plain function = 1, 2, unlimited}, pools 0-2, 2-3 items, bounds as in C27; the quick tier '
@@ -121,12 +123,13 @@ reg('C28', level='model_checking', runs=c28_runs, quick_budget_s=240, thorough_b
 
 # ---------------------------------------------------------------------------------------------- C29
 def c29_runs(tier):
-    runs, seen = [], set()
+    runs, heavy, san, seen = [], [], [], set()  # order: cheap plain runs, two workers at bound >= 1, sanitizer legs
     q = tier == 'quick'
 
-    def add(*a, **k):
+    def add(n, st, items, bound, **k):
         k.setdefault('again', 1)
-        _run(runs, seen, 29, *a, **k)
+        dest = san if k.get('mode', 'plain') != 'plain' else (heavy if (n >= 2 and bound >= 1) else runs)
+        _run(dest, seen, 29, n, st, items, bound, **k)
     ATS = (0, 1, 2)  # throw at first / middle / last of 3 items
     # ---- two stages: every thrower position x item x limit pair (quick: 5 pairs).  One worker: bound 1, one run per
     # (pair, thrower, item); pools 0 and 2: bound 0, thrower and item enumerated inside the run (-2 wildcards)
@@ -178,7 +181,7 @@ def c29_runs(tier):
     add(2, 'ppp', 3, 0, mode='asan', thr=2, at=0, f1=-1)
     add(1, 'p2', 3, 1, mode='tsan', thr=1, at=1, budget=150)
     add(2, 'uu', 3, 0, mode='tsan', thr=0, at=1)
-    return runs
+    return runs + heavy + san
 
 
 reg('C29', level='model_checking', runs=c29_runs, quick_budget_s=300, thorough_budget_s=1800,
